@@ -6,6 +6,9 @@ ALL = ["C%02d" % i for i in range(1, 37)]
 
 # id -> (design section, technique, level text, level note)
 CLAIMED = {
+ "C07": ("§2 C07", "forward dataflow of 'bytes known present-or-EOF' over the lexer's decomposed-condition CFG, with summaries for fill/peek/peekTwo, per-call-site analysis of peekTwo, refill-cycle detection for unbounded lookahead, must-pass-through in fill",
+  "Decides the necessary condition that every lookahead past the current rune is covered by a refill (or end of input) regardless of how Read chunked the bytes: each index of the read buffer, each acted-upon 'no bytes buffered' test and each open-ended forward slice is an obligation. A lookahead that only inspects what happens to be buffered gives different answers for different chunkings, whatever the input. Found four such sites on the pinned tree (two repaired by fix: commits, two listed as known findings). Also decides that fill() keeps bytes returned together with an error.",
+  "Does not decide equality of whole trees/positions under chunking, nor the correctness of fill's sliding of unread bytes (read). Assumes fill returns 0 only at EOF or error."),
  "C08": ("§2 C08", "field-write classification over the type-checked AST (reset / configuration / entry-set / scratch / fresh-before-use), save-restore idiom via must-pass-through, dominance of reset() in entry points, sibling call-sequence agreement, counter pairing with correlated-guard pruning",
   "Decides that a reused Parser or Printer cannot observe state of an earlier use: each of the 41+24 fields is reset, or only written by option closures and the constructor, or set by every entry point, or scratch, or assigned fresh before every read, with a short reasoned table for five parser fields and one printer field written before they are read; that every entry point resets first and the convenience entry points only go through those; that Parse and StmtsSeq run the same prologue/loop/heredoc epilogue; and that the counters behind Incomplete() are decremented on every path. A new field without reset or classification, a dropped reset line or a leaked counter is one failing obligation.",
   "The five written-before-read parser fields and wroteSemi are reasoned exceptions (one line each), only checked to be written at all. Does not decide equality of the statements yielded by the streaming APIs."),
